@@ -3,7 +3,7 @@
 # written for the scratch tree /tmp/seed-<ID>): in the shared scratch worktree /tmp/wt-seedq apply it, run the pinned suite,
 # run the demonstration with and without the change, then run the property's quick check against that tree. One SEEDQ line each.
 cd /verif
-WT=/tmp/wt-seedq
+WT=${SEEDQ_WT:-/tmp/wt-seedq}
 [ -d $WT ] || git -C /repo worktree add --detach $WT HEAD >/dev/null 2>&1
 for item in "$@"; do
   ID=${item%%/*}; D=$(readlink -f /tmp/seed-$ID-out/${item#*/}); [ -d "$D" ] || D=$(readlink -f "$item")
@@ -11,7 +11,7 @@ for item in "$@"; do
   if ! git -C $WT apply "$D/patch.diff" 2>/dev/null; then echo "SEEDQ $item: patch does not apply to /repo HEAD"; continue; fi
   suite=$(/verif/tools/baseline.sh $WT | head -1)
   demo() {
-    if [ -f "$D/demo.sh" ]; then sed "s#/tmp/seed-$ID#$WT#g" "$D/demo.sh" > /tmp/seedq-demo.sh; timeout 900 sh /tmp/seedq-demo.sh >/dev/null 2>&1; echo $?
+    if [ -f "$D/demo.sh" ]; then sed "s#/tmp/seed-$ID#$WT#g" "$D/demo.sh" > /tmp/seedq-demo-$$.sh; timeout 900 sh /tmp/seedq-demo-$$.sh >/dev/null 2>&1; echo $?
     else t=$(ls "$D"/*.rs | head -1); n=$(basename $t .rs); cp $t $WT/rsass/tests/$n.rs; (cd $WT && timeout 1800 cargo test --offline -p rsass --test $n >/dev/null 2>&1); echo $?; rm -f $WT/rsass/tests/$n.rs; fi
   }
   w=$(demo); git -C $WT stash -q; wo=$(demo); git -C $WT stash pop -q
